@@ -431,20 +431,22 @@ macro_rules! parse_beg_end_comma_sep {
     $end_token: pat,
     $item:expr) => {
         if matches!($ctx.token(), $beg_token) {
+            // Line breaks between the brackets are layout.
+            let (ctx, newlines) = $ctx.skip(1).push_skip_newlines(true);
             let sep =
                 |ctx: Context<'t>| Ok((expect!(ctx, T::Comma, "Expected ',' as seperator"), ()));
 
             let end = |ctx: Context<'t>| {
                 Ok((
                     if matches!(ctx.token(), $end_token) {
-                        ctx.skip(1)
+                        ctx.pop_skip_newlines(newlines).skip(1)
                     } else {
                         ctx
                     },
                     matches!(ctx.token(), $end_token),
                 ))
             };
-            parse_sep_end_by($ctx.skip(1), &sep, &end, $item)
+            parse_sep_end_by(ctx, &sep, &end, $item)
         } else {
             Ok(($ctx, Vec::new()))
         }
@@ -759,7 +761,7 @@ pub fn parse_type<'t>(ctx: Context<'t>) -> ParseResult<'t, Type> {
 
         // Tuple
         T::LeftParen => {
-            let mut ctx = ctx.skip(1);
+            let (mut ctx, skip_newlines) = ctx.skip(1).push_skip_newlines(true);
             let mut types = Vec::new();
             // Tuples may (and probably will) contain multiple types.
             let mut is_tuple = matches!(ctx.token(), T::Comma | T::RightParen);
@@ -783,6 +785,7 @@ pub fn parse_type<'t>(ctx: Context<'t>) -> ParseResult<'t, Type> {
                     }
                 }
             }
+            let ctx = ctx.pop_skip_newlines(skip_newlines);
             let ctx = expect!(ctx, T::RightParen, "Expected ')' after tuple or grouping");
             if is_tuple {
                 (ctx, Tuple(types))
@@ -794,7 +797,9 @@ pub fn parse_type<'t>(ctx: Context<'t>) -> ParseResult<'t, Type> {
         // List
         T::LeftBracket => {
             // Lists only contain a single type.
-            let (ctx, ty) = parse_type(ctx.skip(1))?;
+            let (ctx, skip_newlines) = ctx.skip(1).push_skip_newlines(true);
+            let (ctx, ty) = parse_type(ctx)?;
+            let ctx = ctx.pop_skip_newlines(skip_newlines);
             let ctx = expect!(ctx, T::RightBracket, "Expected ']' after list type");
             (ctx, List(Box::new(ty)))
         }
@@ -875,7 +880,8 @@ fn assignable_call<'t>(ctx: Context<'t>, callee: Assignable) -> ParseResult<'t, 
 /// Parse an [AssignableKind::Index].
 fn assignable_index<'t>(ctx: Context<'t>, indexed: Assignable) -> ParseResult<'t, Assignable> {
     let span = ctx.span();
-    let mut ctx = expect!(ctx, T::LeftBracket, "Expected '[' when indexing");
+    let ctx = expect!(ctx, T::LeftBracket, "Expected '[' when indexing");
+    let (mut ctx, skip_newlines) = ctx.push_skip_newlines(true);
 
     let expr =
         if let (_ctx, expr @ Expression { kind: ExpressionKind::Int(_), .. }) = expression(ctx)? {
@@ -884,6 +890,7 @@ fn assignable_index<'t>(ctx: Context<'t>, indexed: Assignable) -> ParseResult<'t
         } else {
             raise_syntax_error!(ctx, "Expected 'int' when parsing tuple indexing");
         };
+    let ctx = ctx.pop_skip_newlines(skip_newlines);
     let ctx = expect!(ctx, T::RightBracket, "Expected ']' after index");
 
     use AssignableKind::Index;
